@@ -16,6 +16,7 @@ Nothing in this file looks inside them, so every theorem holds for every such tr
 -/
 import CaddyModel.C10.Glue
 import CaddyModel.Gen.Forwarding
+import CaddyModel.Gen.Glue
 
 namespace CaddyModel.C10
 
@@ -395,6 +396,17 @@ def tokPrivateRanges : Bytes := [112, 114, 105, 118, 97, 116, 101, 95, 114, 97, 
 def phClientIP : Bytes :=
   [123, 104, 116, 116, 112, 46, 118, 97, 114, 115, 46, 99, 108, 105, 101, 110, 116, 95, 105, 112, 125]
 
+/-- the ASCII bytes of a generated string fact -/
+def asciiBytes (s : String) : Bytes := s.toList.map (fun c => c.toNat.toUInt8)
+
+/-- what the adapter replaces the `{client_ip}` shorthand by: looked up in the shorthand table
+    REGENERATED from httpcaddyfile/shorthands.go `placeholderShorthands()` (Gen/Glue.lean); a shorthand
+    that is not in the table stays as written -/
+def clientIPShorthandOf : Bytes :=
+  match Gen.placeholderShorthands.lookup "{client_ip}" with
+  | some v => asciiBytes v
+  | none => asciiBytes "{client_ip}"
+
 /-- `for d.NextArg() { if d.Val() == "private_ranges" { ranges = append(ranges, internal.PrivateRangesCIDR()...); continue }; ranges = append(ranges, d.Val()) }`
     (the same loop in ip_range.go and reverseproxy/caddyfile.go); the list is regenerated from internal/ranges.go -/
 def expandRanges : List Bytes → List Bytes
@@ -441,6 +453,6 @@ def adaptOptions (srvLines : List (List Bytes)) (strictLines : Nat) (strictArg :
            strict := decide (strictLines > 0)
            clientIPHeaders := if hs.isEmpty then none else some hs
            rpRanges := (rpLines.map expandRanges).flatten
-           clientIPShorthand := phClientIP }
+           clientIPShorthand := clientIPShorthandOf }
 
 end CaddyModel.C10
